@@ -268,4 +268,5 @@ impl FileExt {
 pub struct UrlComponents {
     pub scheme: String,
     pub path: String,
+    pub query: Option<std::collections::HashMap<String, String>>,
 }
